@@ -25,6 +25,7 @@ from odata_query.sql import AstToAthenaSqlVisitor, AstToSqliteSqlVisitor, AstToS
 
 from .. import sqllex
 from ..common import Run
+from ..gen import pick as gen_pick
 from ..harness import Item, run_items
 
 PID = "C12"
@@ -216,7 +217,7 @@ ALLOWED_FOREIGN = {"sa_core": (NotImplementedError,)}    # documented: paths and
 
 
 def outcome(bi: int, ki: int, pi: int, s: str, n: int):
-    k, p, b = KINDS[ki], POS[pi], BACKENDS[bi]
+    k, p, b = gen_pick(KINDS, ki), gen_pick(POS, pi), BACKENDS[bi]
     tree = p["wrap"](k["build"](s, n), k["root"])
     try:
         out = b["run"](tree, k["root"])
@@ -243,7 +244,7 @@ def outcome(bi: int, ki: int, pi: int, s: str, n: int):
 
 
 def _verdict(bi: int, ki: int, pi: int, s: str, n: int) -> bool:
-    k, p = KINDS[ki], POS[pi]
+    k, p = gen_pick(KINDS, ki), gen_pick(POS, pi)
     if not well_typed(k, p):
         return True
     o = outcome(bi, ki, pi, s, n)
@@ -418,7 +419,7 @@ def check_unknown(which: int, ni: int, shape: int) -> bool:
     from ..models import sa as samodels
     from odata_query.sqlalchemy.core import AstToSqlAlchemyCoreVisitor
     from odata_query.sqlalchemy.orm import AstToSqlAlchemyOrmVisitor
-    name = NAMES[ni]
+    name = gen_pick(NAMES, ni)
     node = [ast.Compare(ast.Eq(), I(name), ast.Integer("1")),
             ast.Call(I("tolower"), [I(name)]),
             ast.BinOp(ast.Add(), I(name), ast.Integer("1")),
